@@ -93,6 +93,14 @@ func (c *rootCtx) walk(v ssa.Value, out rootSet) {
 		// hold pointers to other memory (ab := &pair{a: outer}); a callee writing
 		// "through" it can reach those, so the stored pointers are roots too.
 		out[root{Kind: "fresh"}] = true
+		// a struct VALUE copied into the variable (range element, `x := *p`) carries
+		// its reference fields (maps, slices, pointers) along: memory reached through
+		// them is the memory of the original
+		if _, isStruct := x.Type().Underlying().(*types.Pointer).Elem().Underlying().(*types.Struct); isStruct {
+			for _, st := range cellStores(x) {
+				c.walk(st.Val, out)
+			}
+		}
 	case *ssa.MakeSlice, *ssa.MakeMap, *ssa.MakeChan, *ssa.MakeClosure:
 		out[root{Kind: "fresh"}] = true
 	case *ssa.UnOp:
